@@ -275,6 +275,11 @@ def run(ctx):
             native = _replay(py, name, cex, mode)
         ctx.add(Ob("C09." + name, "c", st, "z3", solver_s / max(1, len(agg)), "%s [%d path instances; measurements=%s]" % (detail, count, mode),
                    cex=cex, native=native))
+    from props import helpers
+    helpers.compute_sd(ctx, py, "C09")
+    helpers.correct_increments_schema(ctx, py, "C09")
+    helpers.interpolate_pva(ctx, py, "C09")
+    helpers.numpy_contracts_standin(ctx, py, "C09")
     _standin(ctx, py)
 
 
